@@ -93,7 +93,7 @@ def _cfg_shard(arg):
 # ------------------------------------------------------------------ histories at the ceiling
 
 CFG = st.one_of(
-    st.builds(lambda w, d: {"kind": "linear", "width": w, "depth": d}, st.sampled_from([1, 2, 3, 8]), st.integers(1, 3)),
+    st.builds(lambda w, d: {"kind": "linear", "width": w, "depth": d}, st.sampled_from([1, 2, 3, 8, 8, 65536, 65537]), st.integers(1, 3)),
     st.builds(lambda w, d, mkl: {"kind": "hh", "width": w, "depth": d, "max_key_len": mkl, "phi": None}, st.sampled_from([1, 2, 3, 8]), st.integers(1, 3), st.sampled_from([2, 4])),
     st.builds(lambda w, d, c: dict({"kind": "log8", "width": w, "depth": d}, **c), st.sampled_from([1, 2, 3, 8]), st.integers(1, 3),
               st.sampled_from([{"max_count": 300, "num_reserved": 0}, {"max_count": 1000, "num_reserved": 15}, {"max_count": 400, "num_reserved": 200}, {"max_count": CEIL, "num_reserved": 15}])),
